@@ -30,6 +30,9 @@ assignment left out (an `update` rejected at its k-th key is replaced by the upd
 """
 
 
+import json
+
+
 def _err_name(e):
     if isinstance(e, ValueError):
         return 'ValueError'
@@ -49,6 +52,26 @@ def _jval(v):
             raise RuntimeError(f'unexpected item {x!r}')
         out.append(x)
     return out
+
+
+def _atom_is_lit(a):
+    return a['a'] == 'lit'
+
+
+def rhs_is_lit(rhs):
+    return _atom_is_lit(rhs['a']) if rhs['k'] == 'atom' else all(_atom_is_lit(a) for a in rhs['items'])
+
+
+def rhs_supported(rhs):
+    atoms = [rhs['a']] if rhs['k'] == 'atom' else rhs['items']
+    return not any(a['a'] == 'fn' and not a['deps'] for a in atoms)
+
+
+def key_supported(tdecl, p, rhs):
+    """mirror of Lean `keySupported`: what lies outside the model is refused, not executed"""
+    if p >= len(tdecl['params']):
+        return rhs_is_lit(rhs)
+    return rhs_supported(rhs) and (tdecl['params'][p]['allow_refs'] or rhs_is_lit(rhs))
 
 
 class Runner:
@@ -88,8 +111,10 @@ class Runner:
         """-> exception name or None"""
         for t, td in enumerate(self.case['targets']):
             kw = {}
+            if not all(key_supported(td, p, rhs) for p, rhs in td['ctor']):
+                return 'unsupported'
             for p, rhs in td['ctor']:
-                kw[self.tnames[t][p]] = self.mk_rhs(rhs)
+                kw[self.tnames[t][p] if p < len(self.tnames[t]) else f'q{p}'] = self.mk_rhs(rhs)
             try:
                 obj = self.tcls[t](**kw)
             except (ValueError, TypeError) as e:
@@ -155,16 +180,21 @@ class Runner:
     # -- operations ---------------------------------------------------------
     def do(self, op):
         o = op['op']
+        tds = self.case['targets']
+        if o == 'set' and (op['p'] >= len(tds[op['t']]['params']) or not key_supported(tds[op['t']], op['p'], op['rhs'])):
+            raise NotImplementedError
+        if o == 'setCls' and not rhs_is_lit(op['rhs']):
+            # a callable would be taken for a Dynamic value; `T.p = <Parameter>` redefines the parameter
+            raise NotImplementedError
+        if o in ('update', 'ctxEnter') and not all(key_supported(tds[op['t']], p, r) for p, r in op['kvs']):
+            raise NotImplementedError
         if o == 'set':
             setattr(self.tgts[op['t']], self.tnames[op['t']][op['p']], self.mk_rhs(op['rhs']))
         elif o == 'setCls':
-            if op['rhs']['k'] == 'atom' and op['rhs']['a']['a'] == 'par':
-                # `T.p = <Parameter>` redefines the parameter (metaclass __setattr__), it is not an assignment
-                raise NotImplementedError('class-level assignment of a Parameter object')
             setattr(self.tcls[op['t']], self.tnames[op['t']][op['p']], self.mk_rhs(op['rhs']))
         elif o in ('update', 'ctxEnter'):
             t = op['t']
-            kw = [(self.tnames[t][p], self.mk_rhs(r)) for p, r in op['kvs']]
+            kw = [(self.tnames[t][p] if p < len(self.tnames[t]) else f'q{p}', self.mk_rhs(r)) for p, r in op['kvs']]
             r = self.tgts[t].param.update(kw)      # an iterable of pairs keeps duplicate keys as written
             if o == 'ctxEnter':
                 r.__enter__()
@@ -180,6 +210,7 @@ class Runner:
 
     def run_ops(self, ops):
         steps = []
+        has_rx = '"rx": true' in json.dumps(self.case)
         for op in ops:
             del self.log[:]
             err = None
@@ -195,6 +226,10 @@ class Runner:
             st['err'] = err
             st['log'] = [list(x) for x in self.log]
             steps.append(st)
+            if has_rx and op['op'] == 'srcSet' and err is not None:
+                # the failed dispatch also skipped the invalidation watchers of rx expressions on this
+                # source (C09 finding update-raises-aborts-dispatch): rx references are stale from here on
+                break
         return steps
 
 
@@ -202,9 +237,10 @@ def _run(case, ops):
     r = Runner(case)
     ce = r.construct()
     if ce is not None:
-        return {'ctor_err': ce, 'init': None, 'steps': []}
+        return {'ctor_err': ce, 'init': None, 'steps': [], 'cut': 0}
     init = r.state()
-    return {'ctor_err': None, 'init': init, 'steps': r.run_ops(ops)}
+    steps = r.run_ops(ops)
+    return {'ctor_err': None, 'init': init, 'steps': steps, 'cut': len(steps)}
 
 
 ASSIGN_OPS = ('set', 'setCls', 'update', 'ctxEnter')
@@ -214,7 +250,7 @@ def twin_ops(ops, steps):
     """the history with every rejected assignment left out"""
     out = []
     for op, st in zip(ops, steps):
-        if st['err'] is not None and op['op'] in ASSIGN_OPS:
+        if st['err'] in ('ValueError', 'TypeError') and op['op'] in ASSIGN_OPS:
             if op['op'] in ('update', 'ctxEnter'):
                 announced = sum(len(e[2]) for e in st['log'] if e[0] == 't' and e[1] == op['t'])
                 out.append({'op': 'update', 't': op['t'], 'kvs': op['kvs'][:announced]})
@@ -229,8 +265,329 @@ def run_impl(case):
     try:
         out = _run(case, case['ops'])
         if case.get('prop') == 'C02' and out['ctor_err'] is None:
-            out['twin'] = _run(case, twin_ops(case['ops'], out['steps']))['steps']
+            out['twin'] = _run(case, twin_ops(case['ops'], out['steps']))['steps'][:out['cut']]
         return out
     except Exception as e:
         import traceback
         return {'crash': f'{type(e).__name__}: {e} @ {traceback.format_exc().splitlines()[-3].strip()}'[:400]}
+
+
+# --------------------------------------------------------------------------- generation
+
+def P(kind='int', lo=None, hi=None, default=None, constant=False, readonly=False, allow_refs=True, nested_refs=False):
+    if default is None:
+        default = 0 if kind == 'int' else [0, 0]
+    return {'kind': kind, 'lo': lo, 'hi': hi, 'default': default, 'constant': constant, 'readonly': readonly,
+            'allow_refs': allow_refs, 'nested_refs': nested_refs}
+
+
+def lit(n):
+    return {'k': 'atom', 'a': {'a': 'lit', 'n': n}}
+
+
+def par(s, i):
+    return {'k': 'atom', 'a': {'a': 'par', 's': s, 'i': i}}
+
+
+def fn(deps, k, rx=False):
+    return {'k': 'atom', 'a': {'a': 'fn', 'deps': [list(d) for d in deps], 'k': k, 'rx': rx}}
+
+
+def cont(*items):
+    return {'k': 'cont', 'items': [x['a'] for x in items]}
+
+
+# the standard target: p0 bounded int, p1 free int, p2 bounded pair with nested refs, p3 bounded constant int,
+# p4 read-only int, p5 int without allow_refs
+STD = [P(lo=0, hi=10), P(), P('pair', 0, 10, nested_refs=True), P(lo=0, hi=10, constant=True, default=1),
+       P(readonly=True, default=2), P(lo=0, hi=10, allow_refs=False)]
+
+
+def ev_atom(a, src):
+    if a['a'] == 'lit':
+        return a['n']
+    if a['a'] == 'par':
+        return src[a['s']][a['i']]
+    return a['k'] + sum(src[s][i] for s, i in a['deps'])
+
+
+def ev_rhs(rhs, src, nested):
+    """value the assignment would validate; None: an object no validator accepts"""
+    if rhs['k'] == 'atom':
+        return ev_atom(rhs['a'], src)
+    if nested or rhs_is_lit(rhs):
+        return [ev_atom(a, src) for a in rhs['items']]
+    return None
+
+
+def val_ok(pd, v):
+    inb = lambda n: (pd['lo'] is None or pd['lo'] <= n) and (pd['hi'] is None or n <= pd['hi'])
+    if v is None:
+        return False
+    if isinstance(v, int):
+        return pd['kind'] == 'int' and inb(v)
+    return pd['kind'] == 'pair' and len(v) == 2 and all(inb(x) for x in v)
+
+
+def mk_case(prop, src_init, targets, ops, nsp=2):
+    return {'prop': prop, 'nsp': nsp, 'src_init': [list(r) for r in src_init],
+            'targets': [{'params': [dict(p) for p in t['params']], 'ctor': t.get('ctor', [])} for t in targets],
+            'ops': ops}
+
+
+def rand_ref(rng, nsrc, nsp, pd, src, want_valid=True, tries=12):
+    """a reference suited to parameter pd (valid or invalid on the current sources if possible)"""
+    best = None
+    for _ in range(tries):
+        sp = lambda: (rng.randrange(nsrc), rng.randrange(nsp))
+        if pd['kind'] == 'pair' and pd['nested_refs']:
+            def atom():
+                r = rng.random()
+                if r < 0.3:
+                    return lit(rng.randint(0, 6))
+                if r < 0.7:
+                    return par(*sp())
+                return fn([sp() for _ in range(rng.randint(1, 2))], rng.randint(-1, 2), rng.random() < 0.5)
+            items = [atom(), atom()]
+            if all(x['a']['a'] == 'lit' for x in items):
+                items[rng.randrange(2)] = par(*sp())
+            r = cont(*items)
+        else:
+            k = rng.random()
+            if k < 0.45:
+                r = par(*sp())
+            else:
+                r = fn([sp() for _ in range(rng.randint(1, 3))], rng.randint(-2, 3), rng.random() < 0.5)
+        best = r
+        if val_ok(pd, ev_rhs(r, src, pd['nested_refs'])) == want_valid:
+            return r
+    return best
+
+
+def rand_plain(rng, pd, want_valid=True):
+    if pd['kind'] == 'pair':
+        v = [rng.randint(0, 9), rng.randint(0, 9)] if want_valid else rng.choice([[50, 1], [1, -7], [1, 2, 3], [4]])
+        return cont(*[lit(x) for x in v])
+    if want_valid:
+        return lit(rng.randint(0, 9))
+    if pd['lo'] is None and pd['hi'] is None:
+        return cont(lit(1), lit(2))            # a tuple is no integer
+    return lit(rng.choice([50, 77] if pd['hi'] is not None else [-50]))
+
+
+def gen_history(rng, targets, src, n_ops, nsrc, nsp, p_bad_src=0.06):
+    """mostly successful operations; mutates the generator's shadow of the source values"""
+    ops = []
+    depth = 0
+    for _ in range(n_ops):
+        t = rng.randrange(len(targets))
+        pds = targets[t]['params']
+        linkable = [i for i, pd in enumerate(pds) if pd['allow_refs'] and not pd['readonly'] and not pd['constant']]
+        r = rng.random()
+        if r < 0.30:
+            s, i = rng.randrange(nsrc), rng.randrange(nsp)
+            v = rng.randint(0, 5) if rng.random() > p_bad_src else rng.randint(11, 30)
+            src[s][i] = v
+            ops.append({'op': 'srcSet', 's': s, 'i': i, 'v': v})
+        elif r < 0.62 and linkable:
+            p = rng.choice(linkable)
+            ops.append({'op': 'set', 't': t, 'p': p, 'rhs': rand_ref(rng, nsrc, nsp, pds[p], src)})
+        elif r < 0.74 and linkable:
+            p = rng.choice(linkable)
+            ops.append({'op': 'set', 't': t, 'p': p, 'rhs': rand_plain(rng, pds[p])})
+        elif r < 0.84 and linkable:
+            ks = rng.sample(linkable, rng.randint(1, min(3, len(linkable))))
+            kvs = [[p, rand_ref(rng, nsrc, nsp, pds[p], src) if rng.random() < 0.5 else rand_plain(rng, pds[p])] for p in ks]
+            if depth < 2 and rng.random() < 0.6:
+                ops.append({'op': 'ctxEnter', 't': t, 'kvs': kvs})
+                depth += 1
+            else:
+                ops.append({'op': 'update', 't': t, 'kvs': kvs})
+        elif r < 0.92 and depth:
+            ops.append({'op': 'ctxExit'})
+            depth -= 1
+        elif r < 0.96:
+            p = rng.randrange(len(pds))
+            if not pds[p]['readonly']:
+                ops.append({'op': 'setCls', 't': t, 'p': p, 'rhs': rand_plain(rng, pds[p])})
+        else:
+            # anything at all, including what will be rejected or is outside the model
+            p = rng.randrange(len(pds) + 1)
+            pd = pds[p] if p < len(pds) else pds[0]
+            rhs = rng.choice([rand_plain(rng, pd, rng.random() < 0.5), rand_ref(rng, nsrc, nsp, pd, src, rng.random() < 0.5)])
+            ops.append({'op': rng.choice(['set', 'update']), 't': t, 'p': p, 'rhs': rhs})
+            if ops[-1]['op'] == 'update':
+                o = ops.pop()
+                ops.append({'op': 'update', 't': t, 'kvs': [[o['p'], o['rhs']]]})
+    return ops
+
+
+REJ_KINDS = ('plain', 'ref', 'nested', 'const', 'readonly')
+REJ_ROUTES = ('set', 'setCls', 'update', 'updateLater', 'ctxEnter')
+
+
+def rejected_op(rng, targets, src, nsrc, nsp, kind, route, t=None, prefer=None):
+    """one assignment built to be rejected: (op, note) or None when the combination does not exist"""
+    t = rng.randrange(len(targets)) if t is None else t
+    pds = targets[t]['params']
+    def pick(f):
+        c = [i for i, pd in enumerate(pds) if f(pd)]
+        return [prefer] if prefer in c else c
+    if kind == 'plain':
+        c = pick(lambda pd: not pd['constant'] and not pd['readonly'])
+        if not c:
+            return None
+        p = rng.choice(c)
+        rhs = rand_plain(rng, pds[p], False)
+    elif kind == 'ref':
+        c = pick(lambda pd: pd['allow_refs'] and not pd['readonly'] and pd['kind'] == 'int' and (pd['hi'] is not None))
+        if not c or route == 'setCls':
+            return None
+        p = rng.choice(c)
+        s, i = rng.randrange(nsrc), rng.randrange(nsp)
+        rhs = rng.choice([fn([[s, i]], 40 + rng.randint(0, 9), rng.random() < 0.5),
+                          fn([[s, i], [rng.randrange(nsrc), rng.randrange(nsp)]], 30, rng.random() < 0.5)])
+        if src[s][i] > pds[p]['hi']:
+            rhs = rng.choice([rhs, par(s, i)])
+    elif kind == 'nested':
+        c = pick(lambda pd: pd['allow_refs'] and pd['nested_refs'] and pd['kind'] == 'pair' and not pd['readonly'])
+        if not c or route == 'setCls':
+            return None
+        p = rng.choice(c)
+        s, i = rng.randrange(nsrc), rng.randrange(nsp)
+        rhs = rng.choice([cont(par(s, i), fn([[s, i]], 50, rng.random() < 0.5)),
+                          cont(par(s, i), lit(3), par(s, i)),
+                          cont(fn([[s, i]], -60), par(rng.randrange(nsrc), rng.randrange(nsp)))])
+    elif kind == 'const':
+        c = pick(lambda pd: pd['constant'] and not pd['readonly'])
+        if not c or route == 'setCls':
+            return None
+        p = rng.choice(c)
+        rhs = rng.choice([lit(rng.choice([8, 9])), rand_ref(rng, nsrc, nsp, pds[p], src)]) if pds[p]['allow_refs'] else lit(9)
+    else:
+        c = pick(lambda pd: pd['readonly'])
+        if not c:
+            return None
+        p = rng.choice(c)
+        rhs = rand_plain(rng, pds[p], rng.random() < 0.7)
+    note = f'rej:{kind}'
+    if route in ('set', 'setCls'):
+        return {'op': route, 't': t, 'p': p, 'rhs': rhs, 'note': note}
+    kvs = [[p, rhs]]
+    others = [i for i, pd in enumerate(pds) if i != p and not pd['constant'] and not pd['readonly'] and pd['allow_refs']]
+    if route == 'updateLater' and others:
+        pre = rng.sample(others, rng.randint(1, min(2, len(others))))
+        kvs = [[q, rand_ref(rng, nsrc, nsp, pds[q], src) if rng.random() < 0.5 else rand_plain(rng, pds[q])] for q in pre] + kvs
+        if rng.random() < 0.4:
+            post = [q for q in others if q not in pre]
+            kvs += [[q, rand_plain(rng, pds[q])] for q in post[:1]]
+    return {'op': 'ctxEnter' if route == 'ctxEnter' else 'update', 't': t, 'kvs': kvs, 'note': note + (':later' if len(kvs) > 1 else '')}
+
+
+def probe_suffix(rng, src, nsrc, nsp, rounds=1):
+    """update every source parameter (old and new sources alike), so that hidden link state shows"""
+    ops = []
+    for _ in range(rounds):
+        order = [(s, i) for s in range(nsrc) for i in range(nsp)]
+        rng.shuffle(order)
+        for s, i in order:
+            v = (src[s][i] + rng.randint(1, 3)) % 6
+            src[s][i] = v
+            ops.append({'op': 'srcSet', 's': s, 'i': i, 'v': v, 'note': 'probe'})
+    return ops
+
+
+def rand_targets(rng, nsrc, nsp, src, ntargets=None):
+    targets = []
+    for _ in range(ntargets or rng.choice([1, 1, 2])):
+        if rng.random() < 0.6:
+            pds = [dict(p) for p in STD]
+        else:
+            pds = []
+            for _ in range(rng.randint(2, 5)):
+                kind = 'pair' if rng.random() < 0.25 else 'int'
+                bounded = rng.random() < 0.6
+                pds.append(P(kind, 0 if bounded else None, 10 if bounded else None,
+                             constant=rng.random() < 0.15, readonly=rng.random() < 0.08,
+                             allow_refs=rng.random() < 0.9, nested_refs=(kind == 'pair' and rng.random() < 0.8) or rng.random() < 0.1,
+                             default=None if kind == 'pair' else rng.randint(0, 3)))
+        ctor = []
+        for p, pd in enumerate(pds):
+            if pd['allow_refs'] and not pd['readonly'] and rng.random() < 0.35:
+                ctor.append([p, rand_ref(rng, nsrc, nsp, pd, src) if rng.random() < 0.85 else rand_plain(rng, pd)])
+        rng.shuffle(ctor)
+        targets.append({'params': pds, 'ctor': ctor})
+    return targets
+
+
+def gen_case(rng, prop, max_ops=10):
+    nsrc, nsp = rng.choice([2, 2, 3]), 2
+    src = [[rng.randint(0, 5) for _ in range(nsp)] for _ in range(nsrc)]
+    init = [list(r) for r in src]
+    targets = rand_targets(rng, nsrc, nsp, src)
+    ops = gen_history(rng, targets, src, rng.randint(0, max_ops), nsrc, nsp,
+                      p_bad_src=0.0 if prop == 'C02' and rng.random() < 0.7 else 0.06)
+    if prop == 'C02':
+        for _ in range(rng.choice([1, 1, 2])):
+            for _ in range(8):
+                rj = rejected_op(rng, targets, src, nsrc, nsp, rng.choice(REJ_KINDS), rng.choice(REJ_ROUTES))
+                if rj:
+                    ops.append(rj)
+                    break
+            ops += probe_suffix(rng, src, nsrc, nsp, rounds=rng.choice([1, 1, 2]))
+    else:
+        ops += gen_history(rng, targets, src, rng.randint(0, 4), nsrc, nsp)
+        while sum(1 for o in ops if o['op'] == 'ctxEnter') > sum(1 for o in ops if o['op'] == 'ctxExit') and rng.random() < 0.8:
+            ops.append({'op': 'ctxExit'})
+        if rng.random() < 0.5:
+            ops += probe_suffix(rng, src, nsrc, nsp)
+    return mk_case(prop, init, targets, ops, nsp)
+
+
+def compare(impl, model):
+    from .run import first_diff
+    a = {k: v for k, v in impl.items() if k != 'twin'}
+    return first_diff(a, model)
+
+
+def tags(case, impl):
+    t = [f'targets={len(case["targets"])}', f'len={min(len(case["ops"]), 12)}']
+    for td in case['targets']:
+        for p, rhs in td['ctor']:
+            t.append('ctor:' + rhs_kind(rhs))
+    if isinstance(impl, dict) and impl.get('steps'):
+        for op, st in zip(case['ops'], impl['steps']):
+            e = st['err'] or 'ok'
+            if 'note' in op and op['note'].startswith('rej'):
+                t.append(f'{op["note"]}:{op["op"]}:{e}')
+            elif op['op'] == 'set':
+                t.append(f'late:{rhs_kind(op["rhs"])}:{e}')
+            else:
+                t.append(f'{op["op"]}:{e}')
+    elif isinstance(impl, dict) and impl.get('ctor_err'):
+        t.append('ctor_err:' + impl['ctor_err'])
+    return t
+
+
+def rhs_kind(rhs):
+    if rhs['k'] == 'cont':
+        return 'plainpair' if rhs_is_lit(rhs) else 'nested'
+    a = rhs['a']
+    return {'lit': 'plain', 'par': 'par'}.get(a['a']) or ('rx' if a.get('rx') else 'fn')
+
+
+def shrink(case):
+    ops = case['ops']
+    for i in range(len(ops)):
+        yield dict(case, ops=ops[:i] + ops[i + 1:])
+    for i, op in enumerate(ops):
+        if op['op'] in ('update', 'ctxEnter') and len(op['kvs']) > 1:
+            for j in range(len(op['kvs'])):
+                yield dict(case, ops=ops[:i] + [dict(op, kvs=op['kvs'][:j] + op['kvs'][j + 1:])] + ops[i + 1:])
+    for t, td in enumerate(case['targets']):
+        for j in range(len(td['ctor'])):
+            nt = [dict(x) for x in case['targets']]
+            nt[t] = dict(td, ctor=td['ctor'][:j] + td['ctor'][j + 1:])
+            yield dict(case, targets=nt)
+    if len(case['targets']) > 1 and not any(o.get('t') == len(case['targets']) - 1 for o in ops):
+        yield dict(case, targets=case['targets'][:-1])
